@@ -568,6 +568,9 @@ func (b *Branch) Trim(height int) error {
 		return errors.New("Height Above Tip") // above tip
 	}
 
+	for _, data := range b.headers[offset:] {
+		delete(b.heightsMap, data.Hash)
+	}
 	b.headers = b.headers[:offset]
 	return nil
 }
@@ -607,6 +610,34 @@ func (bs *Branches) Trim(branch *Branch, height int) error {
 
 	*bs = newBranches
 	return nil
+}
+
+// hashesFrom returns the hashes of the headers that Trim removes for the specified height in the
+// specified branch: the headers of that branch at that height and above and the headers of any
+// branches that are descendents of those.
+func (bs Branches) hashesFrom(branch *Branch, height int) []bitcoin.Hash32 {
+	var result []bitcoin.Hash32
+	for h := height; h <= branch.Height(); h++ {
+		if data := branch.AtHeight(h); data != nil {
+			result = append(result, data.Hash)
+		}
+	}
+
+	var removedBranches Branches
+	for _, b := range bs {
+		if b == branch {
+			continue
+		}
+
+		if removedBranches.Includes(b.parent) || (b.parent == branch && b.parentHeight >= height) {
+			removedBranches = append(removedBranches, b)
+			for _, data := range b.headers {
+				result = append(result, data.Hash)
+			}
+		}
+	}
+
+	return result
 }
 
 func (bs Branches) Includes(branch *Branch) bool {
